@@ -4,7 +4,7 @@ use crate::common::*;
 use crate::eng_daemon::*;
 use serde_json::{json, Value};
 use std::fs::File;
-use std::os::unix::io::AsRawFd;
+use std::os::unix::io::{AsRawFd, FromRawFd};
 use vhost_user_backend::VringT;
 use vmm_sys_util::eventfd::EventFd;
 
@@ -122,6 +122,9 @@ pub fn run_case<V: VringT<GM> + Clone + Send + Sync + 'static>(case: &Value, tra
         trace.emit(json!({"ev": "stress", "threads": n, "iters": iters, "lost": lost, "setup": format!("{s1}/{s2}")}));
     }
     let mut listeners: Vec<std::sync::Arc<EventFd>> = Vec::new();
+    // C09, daemon part: (identity, number of copies the test itself keeps, what keeps the other side alive) of every descriptor sent for a ring slot
+    let mut tokens: Vec<(String, usize, Vec<File>)> = Vec::new();
+    let mut sentkinds: Vec<String> = Vec::new();
     let mut closed = false;
     for step in case["steps"].as_array().unwrap() {
         let op = step["op"].as_str().unwrap();
@@ -438,6 +441,46 @@ pub fn run_case<V: VringT<GM> + Clone + Send + Sync + 'static>(case: &Value, tra
                     listeners.push(e);
                 }
             }
+            "fdslot" => {
+                // a descriptor of a given kind for the kick / call / error slot of a ring (or the no-descriptor flag)
+                let role = step["role"].as_str().unwrap_or("kick");
+                let kind = step["kind"].as_str().unwrap_or("eventfd");
+                let code = match role {
+                    "kick" => 12,
+                    "call" => 13,
+                    _ => 14,
+                };
+                if kind == "none" {
+                    status = rig.peer.request(code, &u64b(q as u64 | 0x100), &[], false).status;
+                } else {
+                    // (descriptor to send, what the test keeps)
+                    let (send, keep, own): (File, Vec<File>, usize) = match kind {
+                        "eventfd" => {
+                            let e = new_eventfd();
+                            (dup_file_of(&e), vec![dup_file_of(&e)], 1)
+                        }
+                        "pipe_r" | "pipe_w" => {
+                            let mut fds = [0i32; 2];
+                            // SAFETY: pipe2 fills the two descriptors; result checked.
+                            assert!(unsafe { libc::pipe2(fds.as_mut_ptr(), libc::O_CLOEXEC | libc::O_NONBLOCK) } == 0);
+                            // SAFETY: fresh descriptors owned from here on.
+                            let (r, w) = unsafe { (File::from_raw_fd(fds[0]), File::from_raw_fd(fds[1])) };
+                            if kind == "pipe_r" { (r, vec![w], 1) } else { (w, vec![r], 1) }
+                        }
+                        "sock" => {
+                            let (a, b) = std::os::unix::net::UnixStream::pair().unwrap();
+                            // SAFETY: the descriptors are taken out of their owners.
+                            unsafe { (File::from_raw_fd(std::os::unix::io::IntoRawFd::into_raw_fd(a)), vec![File::from_raw_fd(std::os::unix::io::IntoRawFd::into_raw_fd(b))], 0) }
+                        }
+                        _ => (memfd("slotfile", 4096), vec![], 0),
+                    };
+                    let ident = fd_ident(send.as_raw_fd());
+                    status = rig.peer.request(code, &u64b(q as u64), &[send.as_raw_fd()], false).status;
+                    drop(send);
+                    tokens.push((ident, own, keep));
+                    sentkinds.push(format!("{role}/{kind}"));
+                }
+            }
             "dev" => {
                 // X03: an optional device-level request, all the way from the wire to the backend callback and back
                 let kind = step["k"].as_str().unwrap_or("");
@@ -559,8 +602,14 @@ pub fn run_case<V: VringT<GM> + Clone + Send + Sync + 'static>(case: &Value, tra
         let dispatches: Vec<Value> = evs.iter().filter(|e| e["ev"] == "dispatch" && e["event"] != bid).cloned().collect();
         let cbs: Vec<Value> = evs.iter().filter(|e| e["ev"] == "cb").cloned().collect();
         let dcbs: Vec<Value> = evs.iter().filter(|e| e["ev"] == "dcb").cloned().collect();
+        if !tokens.is_empty() {
+            // how many descriptors besides the test's own copies refer to each file sent so far (= held by the daemon)
+            let held: Vec<i64> = tokens.iter().map(|(id, own, _)| count_ident(id) as i64 - *own as i64).collect();
+            out["held"] = json!(held);
+        }
+        let sk = json!(sentkinds);
         let mut e = json!({"ev": "step", "op": op, "q": q, "letter": step, "status": status, "out": out,
-            "dispatches": dispatches, "ndispatch": dispatches.len(), "cbs": cbs, "dcbs": dcbs, "workers_ok": workers_ok, "panics": take_panics(),
+            "dispatches": dispatches, "ndispatch": dispatches.len(), "cbs": cbs, "dcbs": dcbs, "sentkinds": sk, "workers_ok": workers_ok, "panics": take_panics(),
             "updates": *rig.tb.updates.lock().unwrap()});
         // ring snapshot through the backend's own view: sampled in the barrier dispatch of each thread
         let mut last_per_thread: std::collections::BTreeMap<u64, &Value> = std::collections::BTreeMap::new();
@@ -579,5 +628,6 @@ pub fn run_case<V: VringT<GM> + Clone + Send + Sync + 'static>(case: &Value, tra
     }
     drop(listeners);
     let _ = rig.finish();
-    trace.emit(json!({"ev": "end", "nfds": std::fs::read_dir("/proc/self/fd").map(|d| d.count()).unwrap_or(0)}));
+    let held_end: Vec<i64> = tokens.iter().map(|(id, own, _)| count_ident(id) as i64 - *own as i64).collect();
+    trace.emit(json!({"ev": "end", "nfds": std::fs::read_dir("/proc/self/fd").map(|d| d.count()).unwrap_or(0), "held": held_end}));
 }
